@@ -10,8 +10,37 @@ import (
 )
 
 // per struct: n generated values (schema-driven encoder), each also mutated nmut times
-func genStructs(o *hx.Out, rng *hx.Rng, n, nmut int) {
+// payload sizes around the one- / two- / three-byte length prefix boundaries
+var boundarySizes = []int{126, 127, 128, 129, 130}
+var bigBoundarySizes = []int{16382, 16383, 16384, 16385, 16386}
+
+func genStructs(o *hx.Out, rng *hx.Rng, n, nmut int, big bool) {
 	for _, e := range cxs.Entries() {
+		seenBytes := false
+		for idx, f := range e.Fields {
+			if !cxs.BoundaryKind(f.Ty) {
+				continue
+			}
+			packed := f.Ty != "TStr" && f.Ty != "TBytes"
+			sizes := boundarySizes
+			if !packed && !big {
+				sizes = []int{127, 128}
+			}
+			if big { // around the two- / three-byte length prefix: kept few, 16k-element arrays are slow to evaluate in Coq
+				if packed {
+					sizes = append(append([]int{}, sizes...), 16384)
+				} else if !seenBytes {
+					sizes = append(append([]int{}, sizes...), 16383, 16384)
+					seenBytes = true
+				}
+			}
+			for _, sz := range sizes {
+				o.Put(cxs.RunStruct(e, cxs.GenBoundary(rng, e, idx, sz, false), "boundary"))
+				if packed && f.Ty != "TBools" && sz%2 == 0 && sz < 1000 {
+					o.Put(cxs.RunStruct(e, cxs.GenBoundary(rng, e, idx, sz, true), "boundary2"))
+				}
+			}
+		}
 		o.Put(cxs.RunStruct(e, []byte{}, "empty"))
 		for i := 0; i < n; i++ {
 			d := cxs.GenValue(rng, e, 0, i%3 == 2)
